@@ -422,6 +422,7 @@ def _corpus_families(big):
     for extra in ([], [{"k": "MinimumTrials", "n": 6}]):
         out.append({"factors": [wc2, sz2, loud], "block": {"k": "cross", "design": [0, 1, 2], "crossing": [0, 1], "rcc": False,
                     "cs": [{"k": "Exclude", "f": 2, "l": 0}] + extra}})
+    out.mark()
     # a within-trial derived factor over another derived factor, both uncrossed but kept in the problem by a
     # constraint, listed in the design *before* the factor it depends on (fill-in order must follow dependencies)
     dc, dw, dz = _sf(0, ["r", "g"]), _sf(1, ["r", "g"]), _sf(2, ["big", "small"])
@@ -436,6 +437,7 @@ def _corpus_families(big):
     for order in ([0, 1, 2, 4, 3], [4, 3, 0, 1, 2], [0, 1, 2, 3, 4]):
         out.append({"factors": [dc, dw, dz, cong, diff], "block": {"k": "cross", "design": order, "crossing": [0, 2], "rcc": True,
                     "cs": [{"k": "AtMostKInARow", "n": 3, "f": 4, "l": 0}]}})
+    out.mark()
     # an implied (uncrossed, unconstrained) derived factor whose window covers two factors and two trials, with a
     # table that tells the positions apart (is a[0], the current level of the first factor, its first level?)
     ca, cb = _sf(0, ["r", "g"]), _sf(1, ["r", "g"])
@@ -451,6 +453,7 @@ def _corpus_families(big):
         wf2 = {"id": 2, "name": "f2", "window": {"deps": [0, 1], "width": width, "stride": 1, "start": None, "kind": kind},
                "levels": [{"name": "hit", "w": 1, "table": tblx}, {"name": "miss", "w": 1, "table": [1 - x for x in tblx]}]}
         out.append({"factors": [ca, cb, wf2], "block": {"k": "cross", "design": [0, 1, 2], "crossing": [0, 1], "rcc": True, "cs": []}})
+    out.mark()
     # Repeat of a block with a preamble (Transition in the crossing) and constraints given to the block: the
     # repetition windows overlap by the preamble, [0,5) and [4,9)
     colr, shp = _sf(0, ["r", "g"]), _sf(1, ["circle", "square"])
@@ -473,6 +476,7 @@ def _corpus_families(big):
     out.append({"factors": [oa2, ob, bad, ins], "block": {"k": "nest", "cs": [], "align": None,
                 "outer": {"k": "cross", "design": [0, 1, 2], "crossing": [0, 1], "rcc": False, "cs": [{"k": "Exclude", "f": 2, "l": 0}]},
                 "inner": {"k": "cross", "design": [10], "crossing": [10], "rcc": True, "cs": []}}})
+    out.mark()
     # MinimumTrials on both blocks of a Nest (each counts in its own block's trials), also together with one on the Nest
     na, nb = _sf(0, ["A1", "A2"]), _sf(10, ["B1", "B2"])
     for mo, mi, mn in ((4, 4, None), (4, 2, None), (2, 4, None), (4, 3, 20)):
